@@ -5,7 +5,6 @@ import jax
 import jax.numpy as jnp
 
 from fdtdx.core.jax.pytrees import TreeClass, autoinit, frozen_field, frozen_private_field
-from fdtdx.core.misc import index_1d_array
 from fdtdx.interfaces.state import RecordingState
 
 
@@ -237,9 +236,14 @@ class LinearReconstructEveryK(TimeStepFilter):
         def linear_reconstruct():
             arr_idx = arr_indices[0]
 
-            prev_save_time = index_1d_array(self._time_to_arr_idx, arr_idx)
-            next_save_time = index_1d_array(self._time_to_arr_idx, arr_idx + 1)
-            interp_factor = (time_idx - prev_save_time) / (next_save_time - prev_save_time)
+            # the save times of the two enclosing slots; searching the index table for the first entry
+            # equal to arr_idx would return step 0 instead of start_recording_after for the first slot
+            prev_save_time = self._save_time_steps[arr_idx]
+            next_save_time = self._save_time_steps[arr_idx + 1]
+            float_dtype = jnp.result_type(float)
+            interp_factor = (time_idx - prev_save_time).astype(float_dtype) / (next_save_time - prev_save_time).astype(
+                float_dtype
+            )
 
             prev_vals, next_vals = values[0], values[1]
             res = {}
